@@ -163,7 +163,7 @@ func runRace(prop string, rounds int) int {
 		}
 		// a table that keeps growing past any reset / strategy threshold one might pick (4096, 8192) while
 		// other goroutines look up values that are already in it
-		for rep := 0; rep < 1+rounds/1000; rep++ {
+		for rep := 0; rep < 1; rep++ {
 			p := &plenc.Plenc{}
 			p.RegisterDefaultCodecs()
 			decode := func(s string) string {
